@@ -1924,6 +1924,275 @@ def k22_part(ctx: vlib.Ctx, mod):
          imports="UnionModel LitEmit K22Cases", gen_imports="From VerifGen Require Import K22.", needs=("theories/K22Cases.vo",))
 
 
+# ---------------------------------------------------------------------------
+# K43: the translated dispatch of (un)pack_special_typing_primitive vs what the real functions return
+# ---------------------------------------------------------------------------
+class DispatchRecorder:
+    """wraps the registered (un)pack_special_typing_primitive and Registry.get: for every call of the dispatch
+    records spec.type, could_be_none, resolved type params, the returned expression (or exception) and the
+    (type, expression) pairs of the registry calls made directly by it"""
+
+    def __init__(self):
+        import mashumaro.core.meta.types.common as _common
+        import mashumaro.core.meta.types.pack as _pack
+        import mashumaro.core.meta.types.unpack as _unpack
+        self.common, self.records, self.stack = _common, [], []
+        self.regs = {"unpack": _unpack.UnpackerRegistry, "pack": _pack.PackerRegistry}
+        self.fn = {"unpack": _unpack.unpack_special_typing_primitive, "pack": _pack.pack_special_typing_primitive}
+
+    def _wrap(self, side, fn):
+        def wrapped(spec):
+            rec = {"side": side, "type": spec.type, "cbn": spec.could_be_none, "expression": spec.expression, "nested": [],
+                   "annotations": list(getattr(spec, "annotations", []) or [])}
+            try:
+                rec["rtp"] = dict(spec.builder.get_field_resolved_type_params(spec.field_ctx.name))
+            except Exception as e:  # noqa: BLE001
+                rec["rtp"] = None
+            self.stack.append(("disp", rec))
+            try:
+                r = fn(spec)
+                rec["result"] = r
+                return r
+            except BaseException as e:  # noqa: BLE001
+                rec["exc"] = type(e).__name__
+                raise
+            finally:
+                self.stack.pop()
+                self.records.append(rec)
+        return wrapped
+
+    def __enter__(self):
+        self.saved = []
+        for side, reg in self.regs.items():
+            lst = reg._registry
+            i = next((k for k, f in enumerate(lst) if f is self.fn[side]), None)
+            if i is None:
+                raise RuntimeError(f"{side}_special_typing_primitive is not in the registry")
+            self.saved.append((lst, i, lst[i]))
+            lst[i] = self._wrap(side, lst[i])
+        cls = self.common.Registry
+        self.orig_get = orig = cls.get
+        stack = self.stack
+
+        def get(reg, spec):
+            parent = stack[-1] if stack else None
+            tp = spec.type
+            stack.append(("get", None))
+            try:
+                r = orig(reg, spec)
+            finally:
+                stack.pop()
+            if parent is not None and parent[0] == "disp":
+                parent[1]["nested"].append((tp, r))
+            return r
+        cls.get = get
+        return self
+
+    def __exit__(self, *a):
+        self.common.Registry.get = self.orig_get
+        for lst, i, f in self.saved:
+            lst[i] = f
+        return False
+
+
+def k43_dty(tp, table, depth=0):
+    """python type -> Coq dty term; distinct non-scalar leaves / type variables are numbered through `table`"""
+    if tp is None or tp is NoneType:
+        return "DScalar KNone"
+    if tp in (int, float, bool, str):
+        return f"DScalar {KIND[tp]}"
+    if tp is typing.Any:
+        return "DAny"
+
+    def num(x):
+        key = ("tv", id(x)) if isinstance(x, typing.TypeVar) or type(x).__name__ == "TypeVar" else ("t", repr(x))
+        return table.setdefault(key, len(table))
+    if typing.get_origin(tp) is typing.Union:
+        return "DUnion [" + "; ".join(k43_dty(a, table, depth + 1) for a in typing.get_args(tp)) + "]"
+    if hasattr(tp, "__constraints__") and hasattr(tp, "__bound__"):
+        if depth > 2:
+            return f"DPlain {num(tp)}"
+        opt = lambda x: "None" if x is None else f"(Some ({k43_dty(x, table, depth + 1)}))"
+        try:
+            has_default = tp.has_default()
+        except AttributeError:
+            has_default = getattr(tp, "__default__", None) is not None
+        cs = "; ".join(k43_dty(c, table, depth + 1) for c in tp.__constraints__)
+        return (f"DTypeVar {num(tp)} {'true' if tp is typing.AnyStr else 'false'} [{cs}] {opt(tp.__bound__)} "
+                f"{opt(tp.__default__) if has_default else 'None'}")
+    return f"DPlain {num(tp)}"
+
+
+K43_LEAVES = ["date", "int", "str", "float", "bool", "List[int]", "DC1", "Decimal", "Dict[str, int]", "UUID", "Color", "bytes", "Any",
+              "List[Optional[int]]", "Tuple[int, str]"]
+
+
+def k43_observe(rec):
+    """observation code (Coq xcode) of one recorded dispatch call, or None when the text does not tell"""
+    tp, side = rec["type"], rec["side"]
+    if "exc" in rec:
+        return "ORaise" if rec["exc"] == "UnserializableDataError" else None
+    r, nested = rec.get("result"), rec["nested"]
+    if r is None:
+        return "ONext"
+    if typing.get_origin(tp) is typing.Union:
+        cands = list(typing.get_args(tp))
+    else:
+        try:
+            has_default = tp.has_default()
+        except AttributeError:
+            has_default = getattr(tp, "__default__", None) is not None
+        cands = [getattr(tp, "__bound__", None)] + ([tp.__default__] if has_default else [])
+    if not nested:
+        return "OValue" if r == rec["expression"] else None
+    if len(nested) == 1:
+        a, ar = nested[0]
+        if a is None:
+            idx = "None"
+        else:
+            pos = next((i for i, c in enumerate(cands) if c is a), None)
+            if pos is None:
+                pos = next((i for i, c in enumerate(cands) if c == a), None)
+            if pos is None:
+                return None
+            idx = f"(Some {pos})"
+        if r == ar:
+            return f"OReg {idx} false"
+        if r == f"{ar} if {rec['expression']} is not None else None":
+            return f"OReg {idx} true"
+        return None
+    if f"__{side}_union_" in r:
+        return f"OUnion {len(nested)}"
+    if f"__{side}_type_var_" in r:
+        return f"OTypeVar {len(nested)}"
+    return None
+
+
+def k43_part(ctx: vlib.Ctx, mod):
+    """(T) validation of kernel K43: build real codecs / dataclasses over union, Optional and type variable positions
+    (codec top level: could_be_none; nullable dataclass fields: not could_be_none; container items; generic
+    dataclasses specialised with None), record every call of the real dispatch and compare its outcome with the
+    translated functions on the same abstracted ValueSpec."""
+    if not ctx.kernel_report.get("K43", {}).get("ok", False):
+        ctx.not_shown("kernel K43", str(ctx.kernel_report.get("K43", {}).get("error")))
+        return
+    rng, ns = ctx.rng, mod.__dict__
+    exprs = list(CURATED_UNIONS)
+    for _ in range(ctx.budget(40, 300)):
+        exprs.append(gen_union_expr(rng, encode=False)[0])
+    for _ in range(ctx.budget(60, 400)):
+        k = rng.choice([2, 2, 2, 3, 3, 4])
+        ms = rng.sample(K43_LEAVES, k - 1) + [rng.choice(["None", "None", rng.choice(K43_LEAVES)])]
+        ms = list(dict.fromkeys(ms))
+        if len(ms) < 2:
+            continue
+        rng.shuffle(ms)
+        exprs.append(f"Union[{', '.join(ms)}]")
+    snippets = []
+    # type variable positions (codec top level and unspecialised generic dataclass field)
+    tvdefs = []
+    for cs in TV_CONSTRAINT_SETS[:ctx.budget(6, 14)] + [[]] * ctx.budget(6, 14):
+        kw = []
+        if rng.random() < 0.5:
+            kw.append(f"default={rng.choice(TV_TARGETS)}")
+        if not cs and rng.random() < 0.7:
+            kw.append(f"bound={rng.choice(TV_TARGETS + ['Any'])}")
+        tvdefs.append(f"XTypeVar('KT', {', '.join(cs + kw)})")
+    tvdefs += ["XTypeVar('KT')", "XTypeVar('KT', bound=Any)", "typing.AnyStr"]
+    recs, nbuilt = [], 0
+
+    def build(src_or_fn):
+        nonlocal nbuilt
+        for _f in getattr(typing, "_cleanups", []):
+            _f()
+        with DispatchRecorder() as dr:
+            try:
+                src_or_fn()
+            except Exception:  # noqa: BLE001  (AnyStr, unserializable combinations: the records tell)
+                pass
+        nbuilt += 1
+        recs.extend(dr.records)
+
+    ns.setdefault("typing", typing)
+    for e in exprs:
+        try:
+            tp = eval(e, ns)
+        except Exception:  # noqa: BLE001
+            continue
+        pure = typing.Any not in typing.get_args(tp) if typing.get_origin(tp) is typing.Union else True
+        build(lambda: ns["BasicDecoder"](tp))
+        if pure:
+            build(lambda: ns["BasicEncoder"](tp))
+        if rng.random() < ctx.budget(35, 60) / 100:
+            n = _MOD_COUNTER[0] = _MOD_COUNTER[0] + 1
+            src = (f"@dataclass\nclass K43H{n}(DataClassDictMixin):\n    a: {e}\n    b: List[{e}]\n    c: Dict[str, {e}] = field(default_factory=dict)\n"
+                   f"    d: Optional[{e}] = None\n")
+            build(lambda: xexec(src, ns))
+    for tvd in tvdefs:
+        n = _MOD_COUNTER[0] = _MOD_COUNTER[0] + 1
+        try:
+            xexec(f"K43T{n} = {tvd}\n", ns)
+        except Exception:  # noqa: BLE001
+            continue
+        tv = ns[f"K43T{n}"]
+        build(lambda: ns["BasicDecoder"](tv))
+        build(lambda: ns["BasicEncoder"](tv))
+        if tv is not typing.AnyStr:
+            other = rng.choice(K43_LEAVES[:8])
+            src = (f"@dataclass\nclass K43G{n}(Generic[K43T{n}], DataClassDictMixin):\n    a: K43T{n}\n    b: Optional[K43T{n}]\n"
+                   f"    c: Union[K43T{n}, {other}]\n    d: List[Union[K43T{n}, {other}, None]]\n    e: Union[K43T{n}, None, {other}] = None\n"
+                   f"@dataclass\nclass K43S{n}(K43G{n}[None]):\n    pass\n"
+                   f"@dataclass\nclass K43R{n}(K43G{n}[{rng.choice(K43_LEAVES[:8])}]):\n    pass\n")
+            build(lambda: xexec(src, ns))
+    cases, info, seen, untold = [], [], set(), 0
+    for rec in recs:
+        tp = rec["type"]
+        is_u = typing.get_origin(tp) is typing.Union
+        is_tv = hasattr(tp, "__constraints__") and hasattr(tp, "__bound__")
+        if not (is_u or is_tv) or rec["rtp"] is None:
+            continue
+        if any(type(a).__name__ == "Discriminator" for a in rec["annotations"]):
+            continue
+        obs = k43_observe(rec)
+        if obs is None:
+            untold += 1
+            continue
+        table: dict = {}
+        t = k43_dty(tp, table)
+        if is_u:
+            cands = [k43_dty(a, table, 1) for a in typing.get_args(tp)]
+        else:
+            try:
+                hd = tp.has_default()
+            except AttributeError:
+                hd = getattr(tp, "__default__", None) is not None
+            cands = [k43_dty(tp.__bound__, table, 1)] + ([k43_dty(tp.__default__, table, 1)] if hd else [])
+        if any(c.startswith("DUnion") for c in cands):
+            untold += 1
+            continue
+        rtp = []
+        for k, v in rec["rtp"].items():
+            if type(k).__name__ == "TypeVar":
+                kk = table.setdefault(("tv", id(k)), len(table))
+                rtp.append(f"({kk}, {k43_dty(v, table, 1)})")
+        case = (f"(K43C ({t}) [{'; '.join(rtp)}] {'true' if rec['cbn'] else 'false'} [{'; '.join(cands)}] "
+                f"{'true' if rec['side'] == 'unpack' else 'false'} ({obs}))%nat")
+        if case in seen:
+            continue
+        seen.add(case)
+        cases.append(case)
+        info.append((rec["side"], repr(tp)[:120], f"cbn={rec['cbn']}", f"rtp={ {getattr(k, '__name__', k): v for k, v in rec['rtp'].items()} }"[:80], obs))
+        ctx.count(("k43", rec["side"], obs.split()[0], rec["cbn"], "rtp" if rtp else "", len(cands)))
+        ctx.hist("k43_validation", f"{rec['side']}:{obs.split()[0]}:{'cbn' if rec['cbn'] else 'field-tested'}", 1)
+    ctx.hist("k43_validation", "compared", len(cases))
+    ctx.hist("k43_validation", "outcome-not-told-by-text", untold)
+    ctx.hist("k43_validation", "builds", nbuilt)
+    if len(cases) < 40:
+        ctx.not_shown("kernel K43 validation", f"only {len(cases)} dispatch calls observed")
+    corr(ctx, "K43-translation-vs-real-dispatch", cases, info, "k43case", ["k43case_ok"],
+         imports="UnionModel UnionDispatch K43Cases", gen_imports="From VerifGen Require Import K43.", needs=("theories/K43Cases.vo",))
+
+
 THEOREMS = [
     "C11_union_decode_partial", "C11_union_deviation_char", "C11_union_shadow_result", "C11_union_none_refuted",
     "C11_union_shadow_refuted", "C11_no_cross_coercion", "C11_scalars_first_no_shadow", "C11_union_result_from_member",
@@ -1931,6 +2200,9 @@ THEOREMS = [
     "C11_union_encode_partial", "C11_union_encode_refuted", "C11_literal_full", "C11_literal_encode_full",
     "C11_literal_returns_listed", "C11_literal_accepts_listed", "C11_literal_emit_correct", "C11_literal_emitted_full",
     "C11_literal_pack_emit_correct", "C11_literal_text_denotes",
+    "C11_is_optional_spec", "C11_not_none_arg_spec", "C11_union_dispatch_correct", "C11_typevar_dispatch_correct",
+    "C11_typevar_dispatch_model", "C11_optional_position_full", "C11_union_position_partial", "C11_union_position_refuted",
+    "C11_dispatch_symmetric", "C11_optional_encode", "C11_field_none_test_once",
 ]
 
 
@@ -1942,13 +2214,16 @@ def run(ctx: vlib.Ctx):
         "dataclass field, List element; inputs: 62 basic-form values of every scalar class, lists, dicts and garbage. "
         "distinct = (member mix in order, path, input class, verdict class, outcome). Literal: 1-4 listed values of "
         "int/bool/str/None/enum/bytes x 27 inputs.")
-    ctx.theorems("props/C11_union.vo", THEOREMS, kernels=["K19", "K21", "K22"])
+    ctx.theorems("props/C11_union.vo", THEOREMS, kernels=["K19", "K21", "K22", "K43"])
     ctx.trusted += [
         "UnionModel.v is hand-written from UnionUnpackerBuilder._add_body / pack_union / LiteralUnpackerBuilder / expr_or_maybe_none; "
         "tied to /repo only behaviourally (correspondence on every run), parametric in the member (un)packers whose behaviour is "
         "observed on the real code per case (BasicDecoder(member).decode / BasicEncoder(member).encode / single-field holder)",
         "Python `==` on bool/int/float/str/None (UnionModel.py_eq) and `type(value) is T` (kind_of) are modelled, not verified",
         "harness: conforms() (which member a value belongs to), to_uv() (class name + repr as identity of a value)",
+        "K43: types / ValueSpec / returned expression abstracted to UnionDispatch.v (dty, dspec, dexpr); resolved_type_params keyed by "
+        "type variables; has_default() and the registry creators that run before (un)pack_special_typing_primitive are not part of the "
+        "kernel; the field-level None test of a nullable dataclass field (field_dec) is hand-modelled",
     ]
     ctx.assumptions += [
         "coherent / pcoherent: members rendered to the same (un)packer expression behave identically on the input (same expression, deterministic callee)",
@@ -1975,6 +2250,7 @@ def run(ctx: vlib.Ctx):
     k19_part(ctx, mod)
     k21_part(ctx, mod)
     k22_part(ctx, mod)
+    k43_part(ctx, mod)
 
 
 # ---------------------------------------------------------------------------
